@@ -608,7 +608,7 @@ theorem decode_encode (kvs : List (Bytes × KVal)) (ts : List TIn) (file : Bytes
   obtain ⟨H, hHd⟩ : ∃ H, H = head.length := ⟨_, rfl⟩
   have hfile : file = head ++ encData align ts H := by
     unfold encode at henc
-    simp only [halign, bind, Except.bind] at henc
+    simp only [writerAlignment_lenient _ _ halign, bind, Except.bind] at henc
     split at henc
     · cases henc
     · simp only [pure, Except.pure] at henc
